@@ -62,7 +62,7 @@ def cases(draw, tier="quick"):
     nodes = []
     recs = []
     for i in range(n):
-        k = draw(st.sampled_from(["tail", "tail", "tail", "block", "blocks", "dup", "prefix", "leaddup", "zeromix", "taildup"]))
+        k = draw(st.sampled_from(["tail", "tail", "tail", "block", "blocks", "dup", "prefix", "leaddup", "zeromix", "taildup", "rep", "reprev"]))
         seed = 1000 + i
         if k == "tail":          # equal-length distinct tails
             rec = ("rand", seed, 0, draw(st.sampled_from(tail_lens)))
@@ -81,6 +81,11 @@ def cases(draw, tier="quick"):
         elif k == "taildup" and recs:    # own blocks, tail shared with another file
             base = draw(st.sampled_from(recs))
             rec = ("cat", seed, draw(st.integers(0, 2)), draw(st.sampled_from(tail_lens)), 4242)
+        elif k == "rep":         # periodic: the same block k times (+ tail), a candidate run can overlap the file's own / the previous blocks
+            rec = ("rep", draw(st.integers(1, 3)), draw(st.integers(1, 4)), draw(st.sampled_from([0, 0] + tail_lens)))
+        elif k == "reprev" and recs and recs[-1][0] != "lit":   # the file directly before, repeated / extended
+            base = recs[-1]
+            rec = ("rep", base[1] if base[0] == "rep" else draw(st.integers(1, 3)), base[2] + draw(st.integers(0, 2)), draw(st.sampled_from([0, 0] + tail_lens)))
         elif k == "zeromix":
             rec = ("mix", seed, draw(st.integers(2, 4)), draw(st.sampled_from([0] + tail_lens)), draw(st.sampled_from([[1, 0], [0, 1, 1], [1, 0, 0, 1]])))
         else:
@@ -90,7 +95,14 @@ def cases(draw, tier="quick"):
     o = dict(comp=draw(st.sampled_from(["gzip", "zstd", "lz4", "xz"])), X=None, B=B, T=draw(st.booleans()), e=False, j=draw(st.sampled_from([1, 2, 4])),
              Q=draw(st.sampled_from([None, 1, 2])), devblk=None, defaults={}, source_date_epoch=None, xattr_styles=[0], quote_all=False, loc_style=0,
              packdir_mode=1)
-    return dict(mode="file", nodes=nodes, opts=o, bits=bits)
+    sort = []
+    if draw(st.integers(0, 3)) == 0:
+        # a sort file: per-file flags (dont_compress, ...) and a different pack order
+        for nd in nodes:
+            if draw(st.integers(0, 2)) == 0:
+                sort.append((draw(st.integers(-3, 3)), draw(st.lists(st.sampled_from(["dont_compress", "dont_compress", "dont_fragment", "nosparse", "dont_deduplicate"]),
+                                                                      unique=True, max_size=2)), nd["path"]))
+    return dict(mode="file", nodes=nodes, opts=o, bits=bits, sort=sort)
 
 
 def check_case(case, opts):
@@ -99,7 +111,14 @@ def check_case(case, opts):
     bits = case["bits"]
     with Scratch("c08") as sc:
         try:
-            r, out = packlib.run_pack(case, sc, variant="weakhash", env={"VERIF_HASH_BITS": str(bits)})
+            extra = []
+            if case.get("sort"):
+                sf = os.path.join(sc, "sort.txt")
+                with open(sf, "wb") as fh:
+                    for prio, flags, path in case["sort"]:
+                        fh.write(b"%d " % prio + (b"[" + ",".join(flags).encode() + b"] " if flags else b"") + path + b"\n")
+                extra = ["-S", sf]
+            r, out = packlib.run_pack(case, sc, variant="weakhash", env={"VERIF_HASH_BITS": str(bits)}, extra_args=extra)
         except OSError as e:
             raise Inconclusive(str(e))
         if r.sanitizer():
@@ -136,7 +155,10 @@ def check_case(case, opts):
                 raise Violation("rdsquashfs -c %r returns different bytes" % p, None, sig="wrong-data-cat")
         # direction 2: really identical contents share storage
         byc = {}
+        flagged = {path for _, flags, path in (tuple(x) for x in case.get("sort") or []) if flags}
         for p, c in contents.items():
+            if p in flagged:
+                continue    # per-file flags legitimately change how / whether the file is stored shared
             byc.setdefault(c, []).append(p)
         for c, ps in byc.items():
             if len(ps) < 2 or len(c) == 0:
@@ -161,7 +183,7 @@ def check_case(case, opts):
                 tails.setdefault((len(t), xxh32(t) & mask), set()).add(t)
         bc = sum(len(v) * (len(v) - 1) // 2 for v in blocks.values())
         tc = sum(len(v) * (len(v) - 1) // 2 for v in tails.values())
-        cl = ["bits_%d" % bits]
+        cl = ["bits_%d" % bits] + (["sort_file_flags"] if flagged else [])
         if bc:
             cl.append("block_collisions")
         if tc:
